@@ -70,7 +70,7 @@ def _ops():
               up=op.spin_dm("z+"), xp=op.spin_dm("x+"), op=op)
 
 
-def make_callables(tau, log, typed=None):
+def make_callables(tau, log, typed=None, pulsed=None):
     """explicitly time dependent inputs, all moved by tau: f'(t) = f(t - tau).
     With `typed = u_b` the RETURN TYPE of every callable changes at u = t - tau = u_b
     (int vs float rate, real vs complex dtype of the operators), as user code does that writes
@@ -78,6 +78,8 @@ def make_callables(tau, log, typed=None):
     o = _ops()
     if typed is not None:
         return make_typed_callables(tau, log, typed)
+    if pulsed is not None:
+        return make_pulsed_callables(tau, log, pulsed)
 
     def ham(t):
         log("hamiltonian", t)
@@ -103,6 +105,43 @@ def make_callables(tau, log, typed=None):
         log("field_eom", t)
         u = float(t) - tau
         return (-0.1j - 0.05 * np.cos(0.9 * u)) * a + (0.05 + 0.02 * u) * np.trace(o.sx @ states[0])
+
+    return NS(ham=ham, gam=gam, lop=lop, ham_f=ham_f, eom=eom)
+
+
+def make_pulsed_callables(tau, log, pulsed):
+    """rates and Lindblad operators that are short pulses BETWEEN integer times (centre c, width
+    w, in the unshifted coordinate u = t - tau): they take the same value at every integer u, so
+    code that samples the callables at fixed absolute times sees them constant at one origin and
+    varying at another"""
+    o = _ops()
+    c, w = pulsed
+
+    def bump(u):
+        return float(np.exp(-((u - c) / w) ** 2))
+
+    def ham(t):
+        log("hamiltonian", t)
+        u = float(t) - tau
+        return 0.5 * o.sx + 0.4 * np.cos(1.3 * u) * o.sz
+
+    def gam(t):
+        log("rate", t)
+        return 2.5 * bump(float(t) - tau)
+
+    def lop(t):
+        log("lindblad", t)
+        return o.sm + 0.6 * bump(float(t) - tau) * o.sz
+
+    def ham_f(t, a):
+        log("hamiltonian", t)
+        u = float(t) - tau
+        return 0.5 * o.sx + (0.3 * np.cos(1.1 * u) + 0.2 * np.real(a)) * o.sz
+
+    def eom(t, states, a):
+        log("field_eom", t)
+        u = float(t) - tau
+        return (-0.1j - 0.05 * np.cos(0.9 * u)) * a + 0.05 * np.trace(o.sx @ states[0])
 
     return NS(ham=ham, gam=gam, lop=lop, ham_f=ham_f, eom=eom)
 
@@ -184,7 +223,7 @@ def run_tempo(p, start, tau):
     import oqupy
     from . import oq
     log = TLog()
-    c = make_callables(tau, log, p.get("typed"))
+    c = make_callables(tau, log, p.get("typed"), p.get("pulsed"))
     o = _ops()
     sysm = oqupy.TimeDependentSystem(c.ham, gammas=[c.gam], lindblad_operators=[c.lop])
     params = oqupy.TempoParameters(dt=p["dt"], epsrel=1e-12, dkmax=2, subdiv_limit=p["subdiv"],
@@ -202,7 +241,7 @@ def run_mft(p, start, tau):
     import oqupy
     from . import oq
     log = TLog()
-    c = make_callables(tau, log, p.get("typed"))
+    c = make_callables(tau, log, p.get("typed"), p.get("pulsed"))
     o = _ops()
     tsys = oqupy.TimeDependentSystemWithField(c.ham_f, gammas=[c.gam], lindblad_operators=[c.lop])
     mfs = oqupy.MeanFieldSystem([tsys], c.eom)
@@ -243,7 +282,7 @@ def run_pt_cd(p, start, tau):
     import oqupy
     from . import oq
     log = TLog()
-    c = make_callables(tau, log, p.get("typed"))
+    c = make_callables(tau, log, p.get("typed"), p.get("pulsed"))
     o = _ops()
     if p.get("real_pt", True):
         ptt = oqupy.PtTempo(bath=oq.cheap_bath(), start_time=start, end_time=end_of(start, p),
@@ -289,7 +328,7 @@ def run_cdwf(p, start, tau):
     import oqupy
     from . import oq
     log = TLog()
-    c = make_callables(tau, log, p.get("typed"))
+    c = make_callables(tau, log, p.get("typed"), p.get("pulsed"))
     o = _ops()
     tsys = oqupy.TimeDependentSystemWithField(c.ham_f, gammas=[c.gam], lindblad_operators=[c.lop])
     mfs = oqupy.MeanFieldSystem([tsys], c.eom)
@@ -323,7 +362,7 @@ def run_corr(p, start, tau):
     import oqupy
     from . import oq
     log = TLog()
-    c = make_callables(tau, log, p.get("typed"))
+    c = make_callables(tau, log, p.get("typed"), p.get("pulsed"))
     o = _ops()
     sysm = oqupy.TimeDependentSystem(c.ham, gammas=[c.gam], lindblad_operators=[c.lop])
     pt = oq.identity_pt(p["n"], dt=p["dt"])
@@ -501,7 +540,32 @@ def gen_cases(rng, tier):
     cases += typed_cases(rng, 1 if tier == "quick" else 3)
     cases += far_cases(rng, 1 if tier == "quick" else 3)
     cases += guess_cases(rng, tier)
+    cases += pulsed_cases(rng, tier)
     return cases
+
+
+PULSE_SHIFTS = [0.45, 0.5, 2.55, -1.7]
+
+
+def pulsed_cases(rng, tier):
+    """localised decay / Lindblad-operator pulses between integer times, with shifts that move a
+    pulse onto an integer time (0.45, 0.5, 2.55) and one that does not (-1.7)"""
+    out = []
+    apis = ["tempo", "pt+compute_dynamics", "compute_dynamics_with_field", "mft"]
+    for i, api in enumerate(apis):
+        taus = [PULSE_SHIFTS[(i + rng.randrange(3)) % 3]] if tier == "quick" else PULSE_SHIFTS
+        for tau in taus:
+            c = rng.choice([0.5, 1.5])
+            p = {"dt": 0.1, "n": int(round((c + 0.5) / 0.1)), "subdiv": None, "frac": 0.0,
+                 "pulsed": (c, rng.uniform(0.05, 0.1)), "record_all": True, "controls": [],
+                 "step_controls": [], "real_pt": False}
+            out.append((api, p, 0.0, tau))
+    if tier != "quick":
+        out.append(("pt+compute_dynamics", {"dt": 0.1, "n": 10, "subdiv": 64, "frac": 0.0,
+                                            "pulsed": (0.5, 0.08), "record_all": True,
+                                            "controls": [], "step_controls": [], "real_pt": False},
+                    0.0, 0.45))
+    return out
 
 
 def guess_cases(rng, tier):
@@ -1014,6 +1078,7 @@ def correspondence(res, tier, rng):
             "" if "dt" in p and abs(tau / p["dt"] - round(tau / p["dt"])) < 1e-9
             else ",not-multiple-of-dt")
         res.count("run:%s%s" % (api, ":typed-callables" if p.get("typed") is not None else
+                                ":pulses-between-integers" if p.get("pulsed") is not None else
                                 ":far-origin" if abs(tau) >= 1000 else ""))
         res.count("shift:" + kind)
         res.count("subdiv:%s" % ("None" if p.get("subdiv", 256) is None else "quad_vec"))
@@ -1079,6 +1144,11 @@ def search(res, rng=None):
             fixed.insert(0, (api, {"dt": 0.1, "n": 12, "subdiv": None, "frac": 0.0, "typed": ub,
                                    "record_all": True, "controls": [], "step_controls": [],
                                    "real_pt": False}, 0.0, tau))
+    for api in ("tempo", "pt+compute_dynamics", "compute_dynamics_with_field", "mft"):
+        for (tau, c) in ((0.45, 0.5), (2.55, 0.5), (0.5, 1.5), (-1.7, 0.5)):
+            fixed.insert(0, (api, {"dt": 0.1, "n": int(round((c + 0.5) / 0.1)), "subdiv": None,
+                                   "frac": 0.0, "pulsed": (c, 0.07), "record_all": True,
+                                   "controls": [], "step_controls": [], "real_pt": False}, 0.0, tau))
     for tau in (4.5, -2.6, 2.6):
         fixed.insert(0, ("guess_tempo_parameters", {"pulse": 1.0, "duration": 3.0, "tolerance": 5.0e-2},
                          0.0, tau))
@@ -1133,6 +1203,9 @@ def run(tier, seed, replay):
         "rate, real/complex operators) and a shift that moves the probe time 1.0 across u_b.  "
         "far-origin: origins up to 1e5 with on-/off-grid durations, real runs and the real "
         "_get_num_step (step count independent of the origin).  "
+        "pulses-between-integers: rates and Lindblad operators that are short pulses (centre 0.5 / "
+        "1.5, width 0.05-0.1) equal at all integer times, shifts 0.45, 0.5, 2.55 (pulse onto an "
+        "integer) and -1.7.  "
         "estimated parameters: guess_tempo_parameters(system=...) and tempo_compute(parameters=None) "
         "for a pulse that limits dt, shifts +-2.6 / 4.5 / 1.7: estimated (dt, dkmax, epsrel) identical "
         "(1e-12), reported times minus tau, logged sample times minus tau, states 1e-5 (guessed "
